@@ -37,6 +37,8 @@ def make_uni(rng):
     sig_defaults = (rng.randrange(2), 0, rng.randrange(4), rng.randrange(16))
     hasdef = [True, True, True, True]
     noreset = [False, False, False, False]
+    if rng.random() < 0.25:
+        noreset[1] = True          # a pushed signal marked noreset still returns to its default every step
     for k in (0, 2, 3):
         r = rng.random()
         if r < 0.2:
@@ -63,6 +65,7 @@ def rdecls(uni, ref, on_reset):
     for k in range(2):
         rst = (not uni.var_noreset[k]) and k in wv
         out.append("{| r_def := %d%%Z; r_rst := %s |}" % (uni.var_defaults[k], "true" if rst else "false"))
+    out.append("{| r_def := 0%Z; r_rst := false |}")     # ghost variable of the reference (captured element index)
     return "[" + "; ".join(out) + "]"
 
 
@@ -176,6 +179,8 @@ def run(ck: common.Check, replay=None):
         open(dpath, "w").write(s + CORO_DIAG)
         rc2, out2, err2 = common.coqc(dpath, 3000)
         o = common.coq_outputs(out2)
+        while o and not o[0].startswith("V"):
+            o = o[1:]
         rep = {"case": name, "source": src, "vhdl": vhdl, "program": m["prog"], "async": m["is_async"], "active_low": m["low"]}
         if o and o[0].startswith("VCex"):
             rep.update({"path": o[0], "traces": o[1] if len(o) > 1 else ""})
